@@ -302,6 +302,11 @@ def setup():
 
 
 def main(argv=None):
+    argv = sys.argv[1:] if argv is None else argv
+    if argv and argv[0] == "selftest":
+        from fesim import selftest
+
+        return selftest.main(int(os.environ.get("VERIF_SEED", "0")))
     ap = argparse.ArgumentParser()
     ap.add_argument("prop")
     ap.add_argument("--tier", default=os.environ.get("VERIF_TIER", "quick"), choices=["quick", "thorough"])
